@@ -181,6 +181,14 @@ def numeval(t, env, cache=None):
     if isinstance(t, sj.LogV):
         p = numeval(t.P, env, cache)
         return math.log(p) if p > 0 else -math.inf
+    if isinstance(t, sj.XV):
+        if numeval(t.nan, env, cache):
+            return math.nan
+        if numeval(t.pinf, env, cache):
+            return math.inf
+        if numeval(t.ninf, env, cache):
+            return -math.inf
+        return numeval(t.v, env, cache)
     cache = {} if cache is None else cache
     stack = [t]
     while stack:
